@@ -559,16 +559,23 @@ def c10_post(ctx, results, wsname="c10"):
                 if l.startswith("P ") or l.startswith("R "):
                     tag, idx, rest = l.split(" ", 2)
                     lines[(tag, int(idx))] = rest
+                elif l.startswith("Q "):
+                    # tree number k >= 1 of a small GLR forest
+                    _, idx, k, rest = l.split(" ", 3)
+                    lines[("Q%s" % k, int(idx))] = rest
             todo = [("P", i, sent) for i, sent in enumerate(info["sentences"])]
             # LR modules also parse every sentence with one reused parser object, each after a failing parse
             todo += [("R", i, sent) for i, sent in enumerate(info["sentences"]) if ("R", i) in lines]
+            todo += [(t, i, info["sentences"][i]) for (t, i) in sorted(lines) if t.startswith("Q") and i < len(info["sentences"])]
             for tag, i, sent in todo:
                 counters["evaluations"] += 1
                 line = lines.get((tag, i), "<missing>")
-                case = {"info": dict(info, sentences=[sent]), "output": line[:1500], "mode": "fresh parser" if tag == "P" else "parser object reused after a failed parse"}
+                case = {"info": dict(info, sentences=[sent]), "output": line[:1500], "mode": "fresh parser" if tag == "P" else ("parser object reused after a failed parse" if tag == "R" else "tree #%s of the forest" % tag[1:])}
                 if tag == "R":
                     counters["reused_parser_parses"] = counters.get("reused_parser_parses", 0) + 1
-                pre = "" if tag == "P" else "reuse-"
+                if tag.startswith("Q"):
+                    counters["other_forest_trees_replayed"] = counters.get("other_forest_trees_replayed", 0) + 1
+                pre = "" if tag == "P" else ("reuse-" if tag == "R" else "tree%s-" % tag[1:])
                 if line.startswith("PANIC"):
                     recs.append(dict(k="viol", prop="C10", sig="%spanic:%s:%d" % (pre, sig_base, i), what="building the AST panicked on %r (%s)" % (sent["input"], case["mode"]), case=case))
                     continue
